@@ -107,10 +107,31 @@ def histories(T, tier):
     return out
 
 
+def long_task_configs(tier):
+    """tasks of 3-6 steps (processes that sleep for several steps at once
+    come to sit before the monitor inside a timestep) with another
+    observation's buffer events at every offset around the workflow's end"""
+    from ..scopes import mkobs, mkcfg, mkcase, dag, CLUSTERS
+    out = []
+    wa = dag("fork", [4, 3, 5], [0, 4])
+    wb = dag("chain2", [3, 1], [2])
+    # (a's workflow ends at 16/17: b's start, store and hand-over events
+    # fall one step before, at and after it)
+    for s2 in ((9, 11, 12, 13, 14, 15, 16, 17) if tier == "thorough"
+               else (13, 14, 15, 16)):
+        obs = [mkobs("a", 0, 2, 1, 1, 1, "wa"),
+               mkobs("b", s2, 2, 1, 1, 1, "wb")]
+        cfg = mkcfg(CLUSTERS[3][0], obs, (100, 10), (100, 10), 2, 2)
+        for alg in ({"kind": "queue"}, {"kind": "batch", "p": 2, "min": 1}):
+            out.append(("S-long-tasks", mkcase(cfg, {"wa": wa, "wb": wb},
+                                               alg)))
+    return out
+
+
 def configs(tier, seed):
     cs = C12.cases(tier, seed)
     n = 600 if tier == "thorough" else 24
-    return cs[::max(1, len(cs) // n)]
+    return cs[::max(1, len(cs) // n)] + long_task_configs(tier)
 
 
 def check_fresh_resume(case, ref):
